@@ -525,6 +525,52 @@ fn ops(c: &Case, outdir: &Path, out: &mut String) {
     }
     writeln!(out, "{}", verdicts).unwrap();
     writeln!(out, "FIRSTOPEN {}", first_open.map(|k| k.to_string()).unwrap_or("never".into())).unwrap();
+    // the same prefixes on a REUSED destination: it already holds an older complete file of the same kind (a buffer or a
+    // file opened without truncation). `o` = still serves the old file completely, `r` rejected, `c` complete new file,
+    // `P` = opens and serves neither
+    let old_case_text = if wig {
+        "CASE old wigops\nOPT compress=0 ips=2 bs=2 zooms=8 pass=1 inmem=1 rt=ct threads=1 chan=0 src=iter sort=all\nCHROM oldA 400\nCHROM oldB 90\n\
+V oldA 3 9 3f800000\nV oldA 20 31 40000000\nV oldA 100 180 40400000\nV oldA 200 201 3f800000\nV oldA 300 390 40a00000\nV oldB 0 90 3f800000\nEND\n"
+    } else {
+        "CASE old bedops\nOPT compress=0 ips=2 bs=2 zooms=8 pass=1 inmem=1 rt=ct threads=1 chan=0 src=iter sort=all\nCHROM oldA 400\nCHROM oldB 90\n\
+E oldA 3 9 -\nE oldA 20 31 61\nE oldA 25 180 -\nE oldA 200 201 62\nE oldA 300 390 -\nE oldB 0 90 -\nEND\n"
+    };
+    let old_case = parse_cases(old_case_text).remove(0);
+    let old_sink = Sink::new();
+    let old_ok = if wig { wigbed::write_wig(&old_case, old_sink.clone(), outdir) } else { wigbed::write_bed(&old_case, old_sink.clone(), outdir) };
+    if old_ok.is_ok() {
+        let old_bytes = old_sink.bytes();
+        let old_answers = full_answers(&c.kind, &old_bytes);
+        let mut img: Vec<u8> = old_bytes.clone();
+        let mut wi = 0usize;
+        let mut verdicts = String::from("PREFIXOLD");
+        for o in oplist.iter().chain(std::iter::once(&Op::Flush)) {
+            let v = match full_answers(&c.kind, &img) {
+                None => 'r',
+                Some(a) => {
+                    if Some(&a) == complete.as_ref() {
+                        'c'
+                    } else if Some(&a) == old_answers.as_ref() {
+                        'o'
+                    } else {
+                        'P'
+                    }
+                }
+            };
+            verdicts.push(' ');
+            verdicts.push(v);
+            if let Op::Write { .. } = o {
+                let (pos, data) = &log[wi];
+                wi += 1;
+                let end = *pos as usize + data.len();
+                if img.len() < end {
+                    img.resize(end, 0);
+                }
+                img[*pos as usize..end].copy_from_slice(data);
+            }
+        }
+        writeln!(out, "{}", verdicts).unwrap();
+    }
     // faults: the k-th operation fails
     let mut fl = String::from("FAULT");
     for k in 1..=oplist.len() {
